@@ -185,6 +185,11 @@ def gammaToNatural (F : GammaFns α) (h : History α) (rate : α) : α × α :=
   let m := gammaMoments F h rate
   (m.1 * m.1 / m.2, m.1 / m.2)
 
+/-- a sequence of `gamma_to_natural` queries — (history, special-function values for that query, rate) — answered one after
+the other: the class keeps no state between calls, so the answers are the pointwise answers -/
+def gammaSequence (qs : List (GammaFns α × History α × α)) : List (α × α) :=
+  qs.map (fun q => gammaToNatural q.1 q.2.1 q.2.2)
+
 end Gamma
 
 end Tsdate.Demography
